@@ -65,6 +65,15 @@ type Outer struct {
 	W Wide  `json:"w"`
 }
 
+// Strs backs string properties by fields that are not of type string (layout "strs"): the SDK converts on the
+// way in (unserializeToStruct) and on the way out (asString).
+type Strs struct {
+	B []byte   `json:"b"`
+	R []rune   `json:"r"`
+	E NamedStr `json:"e"`
+	A int64    `json:"a"`
+}
+
 // NamedArr is a defined array type (value class arr_named).
 type NamedArr [2]string
 
@@ -113,6 +122,10 @@ func fieldsOf(t reflect.Type) []Field {
 				return "float"
 			case reflect.TypeOf(NamedStr("")):
 				return "named"
+			case reflect.TypeOf([]byte(nil)):
+				return "string_bytes"
+			case reflect.TypeOf([]rune(nil)):
+				return "string_runes"
 			case reflect.TypeOf([]int64(nil)):
 				return "list_int"
 			case reflect.TypeOf([]string(nil)):
@@ -155,7 +168,7 @@ func mk(id string, v any) *Layout {
 // Layouts in the order of spec/SchemaAST.tla.
 var Layouts = []*Layout{
 	mk("wide", Wide{}), mk("wide_p", &Wide{}), mk("ptrs", Ptrs{}), mk("notag", NoTag{}),
-	mk("sub", Sub{}), mk("sub_p", &Sub{}), mk("subptrs", SubPtrs{}), mk("outer", Outer{}),
+	mk("sub", Sub{}), mk("sub_p", &Sub{}), mk("subptrs", SubPtrs{}), mk("outer", Outer{}), mk("strs", Strs{}),
 }
 
 // ByID finds a layout.
